@@ -195,3 +195,6 @@ func (f *frame) checkAsserts(ins ssa.Instruction, in string, st *State) {
 		vc.assume(in, t.T)
 	}
 }
+
+// AnchorMatches exports the anchor matcher for the frames back end.
+func AnchorMatches(ins ssa.Instruction, anchor string) bool { return anchorMatches(ins, anchor) }
